@@ -13,6 +13,7 @@ import os
 
 from harness import tlc
 from harness.replay import timestamps as rt
+from harness.replay._walks import covering_walks
 
 META = {
     "property_id": "C31",
@@ -82,7 +83,7 @@ def run(ctx):
     for consts in small:
         res, nodes, edges, init = tlc.state_graph("Timestamps", cfg_for(ctx, "ts_small", consts), ctx.scratch, timeout=900)
         ctx.add_tlc(res, "graph %s" % consts)
-        walks = tlc.graph_walks(nodes, edges, init, rng=ctx.rng, max_walks=10 ** 6, max_len=8 * consts["N"] * consts["K"])
+        walks = covering_walks(edges, init)
         covered = set()
         for w in walks:
             covered.update(zip(w, w[1:]))
